@@ -1024,7 +1024,8 @@ theorem insertThird_post (s : Blob) (hinv : LInv s) (k : KeyId) (v : ValueId) (h
     (hleaf : s.blocks[idx]? = some { dirty := d, node := .leaf oh (some opi) ok ov }) :
     ∃ T nl ni l r d' ph pp pl pr pl' pr',
       insertThird k v h (some opi) idx ih side s = (do markLineageDirty opi; pure nl) T
-      ∧ ThirdPost s T nl ni k v h opi idx ih l r d oh ok ov d' ph pp pl pr pl' pr' := by
+      ∧ ThirdPost s T nl ni k v h opi idx ih l r d oh ok ov d' ph pp pl pr pl' pr'
+      ∧ (l, r) = childPair side nl idx := by
   obtain ⟨hnf, d', ph, pp, pl, pr, hpar, hch⟩ := hinv.parent_of hif hleaf rfl
   have hidx : idx < s.blocks.length := (List.getElem?_eq_some_iff.mp hleaf).1
   have hopi : opi < s.blocks.length := (List.getElem?_eq_some_iff.mp hpar).1
@@ -1076,12 +1077,13 @@ theorem insertThird_post (s : Blob) (hinv : LInv s) (k : KeyId) (v : ValueId) (h
     · rw [tb nl, if_neg (fun e => f_opi.1 e.symm), if_neg (fun e => f_idx.1 e.symm), if_neg P2.ne, if_pos rfl]
     · intro j h1 h2 h3 h4 h5
       rw [tb j, if_neg h1, if_neg h2, if_neg h3, if_neg h4, P2.same j h5]
-  have hpost : ∃ l r pl' pr', ThirdPost s T nl ni k v h opi idx ih l r d oh ok ov d' ph pp pl pr pl' pr' := by
+  have hpost : ∃ l r pl' pr', ThirdPost s T nl ni k v h opi idx ih l r d oh ok ov d' ph pp pl pr pl' pr'
+      ∧ (l, r) = childPair side nl idx := by
     by_cases hc : idx = pl
-    · exact ⟨_, _, ni, pr, key _ _ ni pr rfl (Or.inl ⟨hc, rfl, rfl⟩)⟩
-    · exact ⟨_, _, pl, ni, key _ _ pl ni rfl (Or.inr ⟨hch.resolve_left hc, hc, rfl, rfl⟩)⟩
-  obtain ⟨l, r, pl', pr', P⟩ := hpost
-  exact ⟨T, nl, ni, l, r, d', ph, pp, pl, pr, pl', pr', hrun, P⟩
+    · exact ⟨_, _, ni, pr, key _ _ ni pr rfl (Or.inl ⟨hc, rfl, rfl⟩), rfl⟩
+    · exact ⟨_, _, pl, ni, key _ _ pl ni rfl (Or.inr ⟨hch.resolve_left hc, hc, rfl, rfl⟩), rfl⟩
+  obtain ⟨l, r, pl', pr', P, hlr⟩ := hpost
+  exact ⟨T, nl, ni, l, r, d', ph, pp, pl, pr, pl', pr', hrun, P, hlr⟩
 
 /-- **`insert_third_or_later` keeps the local invariant** -/
 theorem insertThird_linv (s : Blob) (hinv : LInv s) (k : KeyId) (v : ValueId) (h : Hash) (opi idx : Nat)
@@ -1089,7 +1091,7 @@ theorem insertThird_linv (s : Blob) (hinv : LInv s) (k : KeyId) (v : ValueId) (h
     (hlen1 : s.k2i.length ≠ 1) {d : Bool} {oh : Hash} {ok : KeyId} {ov : ValueId} (hif : idx ∉ s.free)
     (hleaf : s.blocks[idx]? = some { dirty := d, node := .leaf oh (some opi) ok ov }) :
     LInv (insertThird k v h (some opi) idx ih side s).2 := by
-  obtain ⟨T, nl, ni, l, r, d', ph, pp, pl, pr, pl', pr', hrun, P⟩ :=
+  obtain ⟨T, nl, ni, l, r, d', ph, pp, pl, pr, pl', pr', hrun, P, _⟩ :=
     insertThird_post s hinv k v h opi idx ih side hk hh hlen1 hif hleaf
   rw [hrun, bind_pure_snd]
   exact markLineageDirty_linv opi T P.linv (P.liveOld P.opiLt P.opiFacts.1).2 ⟨_, _, _, _, _, P.bOpi⟩
